@@ -24,7 +24,20 @@ func (core *JApiCore) validateCatalog() *jerr.JApiError {
 		return je
 	}
 
-	return nil
+	return core.validateSerialization()
+}
+
+// validateSerialization reports, as an error of the build, what would make the
+// serialization of the catalog fail.
+func (core *JApiCore) validateSerialization() *jerr.JApiError {
+	d, err := core.catalog.CheckSerialization()
+	if err == nil {
+		return nil
+	}
+	if d != nil && d.Keyword != "" {
+		return d.KeywordError(err.Error())
+	}
+	return core.japiError(err.Error(), 0)
 }
 
 func (core *JApiCore) validateInfo() *jerr.JApiError {
